@@ -342,6 +342,9 @@ pub fn run_op<F: Future>(world: &Shared, mut fut: Pin<&mut F>, opts: OpOpts, pen
                             }
                             Some(t) => {
                                 let from = now;
+                                // a timer of the client is what comes next: it fires a little late
+                                let lat = world.borrow().timer_latency_us;
+                                let t = if lat > 0 && nt == Some(t) && nb.is_none_or(|b| b > t) { t.saturating_add(lat).min(nb.unwrap_or(u64::MAX)).min(opts.deadline.max(t)) } else { t };
                                 vtime::advance_to(t.max(now));
                                 if vtime::now() != from {
                                     world.borrow_mut().ev(Ev::Time { from, to: vtime::now() });
@@ -800,6 +803,7 @@ impl<'d> Exec<'d> {
                         BrokerAct::Close => w.conns[cidx].close_after_drain = true,
                         BrokerAct::Policy(p) => w.conns[cidx].broker = p,
                         BrokerAct::WakeDelay(us) => w.wake_delay_us = us,
+                        BrokerAct::TimerLatency(us) => w.timer_latency_us = us,
                         BrokerAct::WriteGate { after, blocks } => {
                             let c = &mut w.conns[cidx];
                             let offset = c.out.bytes.len() + after;
@@ -1071,11 +1075,22 @@ fn build_config<'a>(
     tx: &'a mut [u8],
     will_props: &'a [Property<'a>],
 ) -> Result<ConfigBuilder<'a>, String> {
-    let mut b = ConfigBuilder::new(Buffers::new(rx, tx))
-        .client_id(&cfg.client_id)
-        .map_err(|e| format!("{e:?}"))?
-        .keepalive_interval(cfg.keepalive)
-        .session_expiry_interval(cfg.session_expiry);
+    // the builder is used the way applications use it: setters in any order, a default that is
+    // overridden later, a value set twice (chosen by the configuration itself, so that a replay
+    // builds the same way)
+    let variant = (cfg.client_id.len() as u64 + cfg.keepalive as u64 + cfg.session_expiry as u64 + cfg.rx as u64) % 4;
+    let mut b = ConfigBuilder::new(Buffers::new(rx, tx));
+    if variant == 1 {
+        b = b.client_id("default-id").map_err(|e| format!("{e:?}"))?.keepalive_interval(7).session_expiry_interval(77);
+    }
+    b = if variant == 2 {
+        b.session_expiry_interval(cfg.session_expiry).keepalive_interval(cfg.keepalive).client_id(&cfg.client_id).map_err(|e| format!("{e:?}"))?
+    } else {
+        b.client_id(&cfg.client_id).map_err(|e| format!("{e:?}"))?.keepalive_interval(cfg.keepalive).session_expiry_interval(cfg.session_expiry)
+    };
+    if variant == 3 {
+        b = b.keepalive_interval(cfg.keepalive).client_id(&cfg.client_id).map_err(|e| format!("{e:?}"))?.session_expiry_interval(cfg.session_expiry);
+    }
     if cfg.downgrade {
         b = b.autodowngrade_qos();
     }
